@@ -31,6 +31,8 @@ CONSTANTS Inst,       \* symbolic instance ids (the adapter maps them to real uu
           Ops,        \* enabled request kinds
           Adapter,    \* TRUE iff the server has an external state adapter
           Compress,   \* TRUE iff the adapter compresses the logs
+          Kinds,      \* protected request kinds (route + method), supplied by the harness from the live URL map
+          Creds,      \* credential shapes that do not contain the exact token as a word (absent, empty, wrong, ...)
           Dev,        \* named deviations
           L
 
@@ -256,6 +258,13 @@ Tear(i) ==           \* the state file of i is damaged (torn write)
     /\ UNCHANGED <<now, mem, ideal, known>>
     /\ Log([op |-> "Tear", i |-> i])
 
+\* C15: the server is configured with a bearer token; a request to a protected endpoint that does not present
+\* the token is refused and changes nothing (all other requests in this module carry the right token)
+Refused(kind, i, cred) ==
+    /\ "Refused" \in Ops
+    /\ UNCHANGED <<now, mem, store, ideal, known>>
+    /\ Log([op |-> "Refused", kind |-> kind, i |-> i, cred |-> cred, status |-> 401])
+
 Init == /\ now = 0 /\ mem = [i \in Inst |-> Null] /\ store = [i \in Inst |-> Null]
         /\ ideal = [i \in Inst |-> Null] /\ known = [i \in Inst |-> Null] /\ hist = <<>> /\ resp = [op |-> "Init"]
 
@@ -269,8 +278,9 @@ DoKeepAlive == \E i \in Inst : KeepAlive(i)
 DoStop  == \E i \in Inst : StopInst(i)
 DoTick  == \E d \in Ticks : Tick(d)
 DoTear  == \E i \in Inst : Tear(i)
+DoRefused == \E kind \in Kinds, i \in Inst, cred \in Creds : Refused(kind, i, cred)
 Next == DoStart \/ DoBegin \/ DoEnd \/ DoStep \/ DoSteps \/ DoResults \/ DoKeepAlive \/ DoStop \/ Metrics \/ DoTick
-        \/ SaveState \/ LoadState \/ Crash \/ DoTear
+        \/ SaveState \/ LoadState \/ Crash \/ DoTear \/ DoRefused
 Spec == Init /\ [][Next]_vars
 
 (******************************** properties ********************************)
@@ -295,6 +305,9 @@ RoundTrip == \A i \in Inst : (Adapter /\ Readable(i) /\ mem[i] # Null /\ mem[i].
 Isolated == [][\A i \in Inst : (resp'.op \in {"Begin", "End", "Step", "Steps", "Results", "KeepAlive", "Stop"}
                                 /\ resp'.i # i /\ mem[i] # Null /\ ~Expired(mem, i, now))
                                => mem'[i] = mem[i] /\ store'[i] = store[i]]_vars
+
+\* C15: a refused request changes no server-side state
+AuthOK == [][resp'.op = "Refused" => (resp'.status >= 400 /\ UNCHANGED <<now, mem, store, ideal, known>>)]_vars
 
 View == core
 Bound == Len(hist) <= L
